@@ -61,12 +61,12 @@ def complete_returns(rec):
             e["path"] = cols
             e["mtime0"] = bool(mt[0] == 0.0)
             e["_mt"] = [float(v) for v in mt]
-        if e["status"] == "Optimal":
+        if e["status"] == "Optimal" and not getattr(rec, "scripted", False):
             e["kkt"] = oracle.kkt_classes(prob, scal, par, x, y, d)
         else:
             e["kkt"] = {"boundsExact": True, "rows": [], "vars": []}
         just = {"violGt": True, "infStat": True, "feas": True, "objLe": True}
-        if e["status"] in ("LocallyInfeasible", "Unbounded") and xfrom:
+        if e["status"] in ("LocallyInfeasible", "Unbounded") and xfrom and not getattr(rec, "scripted", False):
             xi, yi = rec.pts.arrays[xfrom[0]]
             just = oracle.justify(prob, scal, par, xi, yi)
         e["just"] = just
